@@ -149,7 +149,7 @@ package dsl
 //@   ensures a_single_case_stands_for_itself: len(tcs) == 1 ==> typeof(lastArg("encoding/json.Marshal", 0)) == *TypeCase && lastArg("encoding/json.Marshal", 0).(*TypeCase) == tcs[0]
 //@   ensures several_cases_are_a_list: len(tcs) != 1 ==> typeof(lastArg("encoding/json.Marshal", 0)) != *TypeCase
 //@ func (ArrayDimensions).MarshalJSON
-//@   property C04
+//@   property C04,C15
 //@   invariant 0: forall k in 0..rangeindex+1 :: (dims[k].Name == nil && dims[k].Length == nil)
 //@   ensures rank_only_spelling_has_no_names_or_lengths: typeof(lastArg("encoding/json.Marshal", 0)) == int ==> (forall k in 0..len(dims) :: (dims[k].Name == nil && dims[k].Length == nil))
 //@   ensures rank_only_spelling_gives_the_rank: typeof(lastArg("encoding/json.Marshal", 0)) == int ==> lastArg("encoding/json.Marshal", 0).(int) == len(dims)
@@ -214,6 +214,9 @@ package dsl
 //@ func ParseYamlInDir
 //@   property C11,C09
 //@   ensures an_incomplete_directory_walk_is_an_error: errSeen(filepath.Walk) ==> result1 != nil
+//@   ensures the_namespace_is_a_new_object: result0 != nil ==> fresh(result0)
+//@   ensures success_means_a_namespace: result1 == nil ==> result0 != nil
+//@   ensures namespaces_parsed_before_keep_their_references: forall n *Namespace :: !fresh(n) ==> len(n.References) == old(len(n.References))
 // C10 (located diagnostics): the passes that give every node its file name, and expression nodes their position in the
 // model file, walk the tree through VisitChildren. A subscript argument is a node of its own (the type checker reports
 // errors at it): the walk has to reach the argument, not only its value - otherwise its diagnostics read `:1:3:`.
@@ -561,6 +564,20 @@ package dsl
 //@   ensures enum_value_comment_is_cleared: typeof(node) == *EnumValue && node.(*EnumValue) != nil ==> result.(*EnumValue).Comment == ""
 //@   ensures containers_are_rewritten_below: typeof(node) != *DefinitionMeta && typeof(node) != *ArrayDimension && typeof(node) != *EnumValue ==> called("dsl.(*Rewriter).DefaultRewrite")
 
+// Every definition that enters a schema goes through the stripper above, whatever it contains: a shortcut that decides
+// beforehand whether there is anything to strip has to know every node kind that carries a comment (array dimensions do).
+//@ func removeComments
+//@   property C04
+//@   ensures every_definition_goes_through_the_comment_stripper: called(Rewrite)
+
+// C04 / C14: the default rewrite of an enum keeps what it does not rewrite. The schema, every serializer and the
+// generated declarations take the integer encoding of an enum from its base type; a rewrite that changes some other
+// part of the definition (a comment stripped, a value rewritten) must hand the base type on.
+//@ func defaultRewriteImpl
+//@   property C04,C14
+//@   ensures an_enum_keeps_its_base_type: typeof(node) == *EnumDefinition && node.(*EnumDefinition) != nil && old(node.(*EnumDefinition).BaseType) != nil && typeof(result) == *EnumDefinition && result.(*EnumDefinition) != nil ==> result.(*EnumDefinition).BaseType != nil
+//@   ensures an_enum_is_rewritten_to_an_enum: typeof(node) == *EnumDefinition && node.(*EnumDefinition) != nil ==> typeof(result) == *EnumDefinition && result.(*EnumDefinition) != nil
+
 // The types of a schema are ordered by their qualified name: the order of definitions and files cannot matter.
 //@ func GetProtocolSchema$2
 //@   property C04,C12,C13
@@ -727,11 +744,14 @@ package dsl
 //@   requires errorSink != nil && functionCall != nil && visitor != nil
 //@   ensures wrong_arity_is_an_error: typeof(result) == *FunctionCallExpression && result.(*FunctionCallExpression) != nil && len(result.(*FunctionCallExpression).Arguments) != 2 ==> called("validation.(*ErrorSink).Add")
 //@   ensures the_result_is_a_size: (typeof(result) == *FunctionCallExpression && result.(*FunctionCallExpression) != nil ==> result.(*FunctionCallExpression).ResolvedType == SizeType) && (typeof(result) == *IntegerLiteralExpression && result.(*IntegerLiteralExpression) != nil ==> result.(*IntegerLiteralExpression).ResolvedType == SizeType)
+//@   ensures a_literal_dimension_name_becomes_the_position_of_that_dimension_in_the_array: typeof(result) == *IntegerLiteralExpression && result.(*IntegerLiteralExpression) != nil ==> called("math/big.NewInt") && typeof(target.Dimensionality) == *Array && 0 <= lastArg("math/big.NewInt", 0) && lastArg("math/big.NewInt", 0) < len(*target.Dimensionality.(*Array).Dimensions) && (*target.Dimensionality.(*Array).Dimensions)[lastArg("math/big.NewInt", 0)].Name != nil && *(*target.Dimensionality.(*Array).Dimensions)[lastArg("math/big.NewInt", 0)].Name == stringLiteral.Value
+//@ observe-args math/big.NewInt
 //@ func resolveSizeFunctionCall
 //@   property C09,C19
 //@   requires errorSink != nil && functionCall != nil && visitor != nil
 //@   ensures wrong_arity_is_an_error: typeof(result) == *FunctionCallExpression && result.(*FunctionCallExpression) != nil && (len(result.(*FunctionCallExpression).Arguments) == 0 || len(result.(*FunctionCallExpression).Arguments) > 2) ==> called("validation.(*ErrorSink).Add")
 //@   ensures the_result_is_a_size: (typeof(result) == *FunctionCallExpression && result.(*FunctionCallExpression) != nil ==> result.(*FunctionCallExpression).ResolvedType == SizeType) && (typeof(result) == *IntegerLiteralExpression && result.(*IntegerLiteralExpression) != nil ==> result.(*IntegerLiteralExpression).ResolvedType == SizeType)
+//@   ensures a_literal_dimension_name_of_an_open_dimension_becomes_its_position_in_the_array: typeof(result) == *FunctionCallExpression && typeof(target.Dimensionality) == *Array && stringLit != nil && called("math/big.NewInt") ==> 0 <= lastArg("math/big.NewInt", 0) && lastArg("math/big.NewInt", 0) < len(*target.Dimensionality.(*Array).Dimensions) && (*target.Dimensionality.(*Array).Dimensions)[lastArg("math/big.NewInt", 0)].Name != nil && *(*target.Dimensionality.(*Array).Dimensions)[lastArg("math/big.NewInt", 0)].Name == stringLit.Value
 
 // ---- C09 / C04: visitor callbacks must keep descending, otherwise a construct nested deeper is never looked at --
 // Cycle detection / dependency sort: a type reference always descends into its type arguments (a cycle can close
@@ -769,6 +789,10 @@ package dsl
 //@   property C06
 //@   requires newType != nil && oldType != nil
 //@   ensures generic_arguments_are_compared: typeof(result) != *TypeChangeIncompatible ==> called(getBaseDefinition)
+// The only difference between two type arguments that is not "changing the type arguments" is that the definition both
+// name has itself evolved: an iteration of the argument loop that goes on to the next argument saw no change or exactly
+// that one (a vector, optional, union ... of something that changed is a different argument: Image<float*> -> Image<double*>).
+//@   iteration 0: only_an_evolved_definition_is_tolerated_as_a_type_argument: lastResult(compareTypes) == nil || typeof(lastResult(compareTypes)) == *TypeChangeDefinitionChanged
 
 // ---- C09: individual rules. "grew" = the pass reported at least one more error. ---------------------------------
 // A map key must be a primitive scalar type (aliases are looked through by GetUnderlyingType). Whether a key is
@@ -991,7 +1015,7 @@ package dsl
 //@   property C09
 //@   ensures non_definitions_descend: !(typeof(node) == TypeDefinition) ==> called("dsl.(Visitor).VisitChildren")
 //@ func validateRecordFieldNames$1
-//@   property C09
+//@   property C09,C08
 //@   requires errorSink != nil
 //@   ensures non_records_descend: typeof(node) != *RecordDefinition ==> called("dsl.(Visitor).VisitChildren")
 // every field and computed field: a badly-cased name is an error; a name already used on the record is an error;
@@ -1021,7 +1045,7 @@ package dsl
 //@   iteration 1: badly_cased_computed_field_is_an_error: !lastResult("regexp.(*Regexp).MatchString") ==> len(errorSink.Errors) > old(len(errorSink.Errors))
 //@   iteration 1: repeated_computed_field_name_is_an_error: old(field.Name in fields) ==> len(errorSink.Errors) > old(len(errorSink.Errors))
 //@ func validateProtocolSequenceNames$1
-//@   property C09
+//@   property C09,C08
 //@   requires errorSink != nil
 //@   ensures non_protocols_descend: typeof(node) != *ProtocolDefinition ==> called("dsl.(Visitor).VisitChildren")
 //@   invariant 0: forall k in 0..rangeindex+1 :: (protocol.Sequence[k].Name in steps)
